@@ -6,6 +6,9 @@ import (
 	"strings"
 
 	"github.com/Query-farm/vgi-rpc-go/vgirpc"
+	"github.com/apache/arrow-go/v18/arrow"
+	"github.com/apache/arrow-go/v18/arrow/array"
+	"github.com/apache/arrow-go/v18/arrow/memory"
 )
 
 // C34 — shared-memory allocator table consistency.
@@ -14,6 +17,8 @@ import (
 //   new <dataSize>         create a segment with that many data bytes (plus the 64 KiB header)
 //   alloc <n>              allocateLocked(n)            -> "ok <off> <hdr>" | "fail <hdr>"
 //   free <off>             freeAtLocked(off)            -> "ok <hdr>" | "err <hdr>"
+//   allocw <rows>          AllocateAndWrite(int64 batch of <rows> rows); the model line is enriched with the two
+//                          Arrow-derived sizes (estimate, exact total)  -> "ok <off> <len> <hdr>" | "fail <hdr>"
 //   reset                  Reset()                      -> "ok <hdr>"
 //   attach                 second attachment of the same OS object reads the table -> "table a:b,c:d"
 // <hdr> is the hex of the live header prefix (24 fixed bytes + 16 per counted entry).
@@ -44,7 +49,7 @@ func c34Gen(g *Gen) {
 	r := g.Rng
 	n := g.N(300, 6000)
 	for i := 0; i < n; i++ {
-		dataSize := Pick(r, []int{1, 16, 64, 100, 256, 1000, 4096, 65536})
+		dataSize := Pick(r, []int{1, 16, 64, 100, 256, 1000, 4096, 8192, 12000, 20000, 65536})
 		lines := []string{fmt.Sprintf("new %d", dataSize)}
 		// shadow table so generated frees mostly hit live offsets and sizes sit near gap sizes
 		type ent struct{ off, ln int }
@@ -52,7 +57,7 @@ func c34Gen(g *Gen) {
 		nops := r.Range(5, 60)
 		for k := 0; k < nops; k++ {
 			switch x := r.Intn(100); {
-			case x < 55:
+			case x < 50:
 				var sz int
 				switch r.Intn(6) {
 				case 0:
@@ -81,6 +86,9 @@ func c34Gen(g *Gen) {
 						tab = append(tab, ent{prev, sz})
 					}
 				}
+			case x < 62:
+				lines = append(lines, fmt.Sprintf("allocw %d", Pick(r, []int{0, 1, 3, 17, 200, 5000})))
+				tab = nil // sizes come from Arrow: stop steering, frees below fall back to guesses
 			case x < 88:
 				if len(tab) > 0 && r.Chance(85) {
 					j := r.Intn(len(tab))
@@ -214,6 +222,36 @@ func c34Exec(c *Case) {
 				c.Out(l, "ok "+hdr())
 			}
 			c34Oracle(c, seg, l)
+		case "allocw":
+			rows, _ := strconv.Atoi(f[1])
+			b := c34Batch(rows)
+			est, tot, err := seg.VerifShmWireSizes(b)
+			if err != nil {
+				panic(err)
+			}
+			before := seg.VerifTable()
+			off, ln, ok, err := seg.AllocateAndWrite(b)
+			b.Release()
+			ml := fmt.Sprintf("allocw %d %d %d", rows, est, tot)
+			if err != nil {
+				c.Out(ml, "err:"+err.Error())
+			} else if ok {
+				c.Stat("allocw-ok")
+				c.Out(ml, fmt.Sprintf("ok %d %d %s", off, ln, hdr()))
+				// oracle: the new region is exactly (off, ln), inside the data area, disjoint from the old ones
+				if off < uint64(vgirpc.ShmHeaderSize) || off+uint64(ln) > uint64(seg.Size()) {
+					c.Oracle("allocw-out-of-data-area", fmt.Sprintf("%q placed [%d,+%d) outside the data area", l, off, ln))
+				}
+				for _, e := range before {
+					if off < e[0]+e[1] && e[0] < off+uint64(ln) {
+						c.Oracle("allocw-overlaps", fmt.Sprintf("%q placed [%d,+%d) over existing %v", l, off, ln, e))
+					}
+				}
+			} else {
+				c.Stat("allocw-fail")
+				c.Out(ml, "fail "+hdr())
+			}
+			c34Oracle(c, seg, l)
 		case "reset":
 			seg.Reset()
 			c.Stat("reset")
@@ -238,6 +276,19 @@ func c34Exec(c *Case) {
 			c.Out(l, "err:bad-op")
 		}
 	}
+}
+
+// c34Batch builds a one-column int64 batch with the given number of rows.
+func c34Batch(rows int) arrow.RecordBatch {
+	bld := array.NewInt64Builder(memory.DefaultAllocator)
+	defer bld.Release()
+	for i := 0; i < rows; i++ {
+		bld.Append(int64(i))
+	}
+	arr := bld.NewArray()
+	defer arr.Release()
+	sch := arrow.NewSchema([]arrow.Field{{Name: "v", Type: arrow.PrimitiveTypes.Int64}}, nil)
+	return array.NewRecordBatch(sch, []arrow.Array{arr}, int64(rows))
 }
 
 // c34Oracle states the property directly on the real table: sorted, disjoint, inside the data
